@@ -23,6 +23,8 @@ import (
 	"verifharness/engines/c14"
 	"verifharness/engines/c15"
 	"verifharness/engines/c16"
+	"verifharness/engines/c17"
+	"verifharness/engines/c18"
 	"verifharness/engines/c19"
 	"verifharness/engines/c20"
 	"verifharness/engines/pipe"
@@ -46,6 +48,8 @@ var engines = map[string]func(*gen.Ctx) error{
 	"c14": c14.Run,
 	"c15": c15.Run,
 	"c16": c16.Run,
+	"c17": c17.Run,
+	"c18": c18.Run,
 	"c19": c19.Run,
 	"c20": c20.Run,
 }
